@@ -333,10 +333,12 @@ def opGc (j : Lean.Json) : Except String Lean.Json := do
     match (← p.getArr?).toList with
     | [n, v] => pure (← n.getStr?, ← v.getStr?)
     | _ => throw "bad used"
+  let extras := (strList j "unpacked").toOption.getD []
+  let left := Status.gcLeftovers (envOf l cache) hn (boolOf j "read_only") (boolOf j "shallow") (boolOf j "dry") store used extras
   match Status.gc (envOf l cache) hn (boolOf j "read_only") (boolOf j "shallow") (boolOf j "dry") store used with
-  | .permission => pure (Lean.Json.mkObj [("err", "ObjectDBPermissionError")])
-  | .notFound => pure (Lean.Json.mkObj [("err", "FileNotFoundError")])
-  | .ok n st => pure (Lean.Json.mkObj [("removed", n), ("store", strArr st)])
+  | .permission => pure (Lean.Json.mkObj [("err", "ObjectDBPermissionError"), ("unpacked", strArr left)])
+  | .notFound => pure (Lean.Json.mkObj [("err", "FileNotFoundError"), ("unpacked", strArr left)])
+  | .ok n st => pure (Lean.Json.mkObj [("removed", n), ("store", strArr st), ("unpacked", strArr left)])
 
 /-! ### index diff -/
 
@@ -638,6 +640,11 @@ def opLazy (j : Lean.Json) : Except String Lean.Json := do
       -- prefix-closed filter given as the list of accepted keys
       let acc ← (← arr q "accept").toList.mapM keyOf
       let items := IndexLazy.viewItems load idx fun k => acc.contains k
+      outs := outs.push (Lean.Json.arr ((items.mergeSort keyLtJ).map fun e => Lean.Json.arr #[keyTo e.1, lentryTo e.2]).toArray)
+    | "view_prefix" =>
+      let acc ← (← arr q "accept").toList.mapM keyOf
+      let (i', items) := IndexLazy.viewIter load idx (fun k => acc.contains k) (← keyOf (← q.getObjVal? "key"))
+      idx := i'
       outs := outs.push (Lean.Json.arr ((items.mergeSort keyLtJ).map fun e => Lean.Json.arr #[keyTo e.1, lentryTo e.2]).toArray)
     | o => throw s!"bad lazy query {o}"
   pure (Lean.Json.mkObj [("results", Lean.Json.arr outs)])
